@@ -55,6 +55,12 @@ check("C12",
  "deterministic simulation: seeded thread schedules (baton-passing real threads, sys.monitoring pre-emption), crash-point I/O fault injection, reused-vs-pristine relational oracle, minimised schedule+fault replay files",
  "DESIGN.md 4.1")
 
+check("C15",
+ "Seeded search over simulated worlds: include trees of files (fan-out <= 4, depth 0-7, nested directories, relative/absolute, quoted/unquoted, comments, LF/CRLF), cycles, missing files, directories in place of files, one-shot EIO/EACCES injected at the k-th include open or read, repairs between calls, decoy files under the working directory, loaded through open / load / loads / a reused Parser with the simulated working directory unrelated to the tree and changing between calls. Oracle: a 20-line flatten() model written from the statement - result equals loads(substituted text), error kind, exact open sequence (fail-stop, depth-first, root-relative), nothing written, every handle closed, directives kept as data and printed back under expand_includes=False. ~2000 worlds per quick run; sampling evidence over trees x fault placements x call histories.",
+ "Trusts the flatten() model, and the in-memory file system / os.getcwd / os.stat seam (its fidelity is re-checked against a real tmpfs directory in pristine forks for 3-10% of fault-free worlds). The exception class for too-deep/cyclic inclusion is not pinned; any prefix of the model's open sequence is accepted there.",
+ "deterministic simulation: simulated file tree + working directory with crash-point I/O fault injection, seeded world/history search, reference model (textual substitution), minimised replay files",
+ "DESIGN.md 4.3")
+
 def main():
     order = ["C03", "C09", "C12", "C15", "C17", "C18", "C20"]
     claimed = [CHECKS[p] for p in order if p in CHECKS]
